@@ -201,3 +201,26 @@ pub fn case_strategy_large(pools: &'static [&'static str], w: OpWeights, fix: fn
         })
         .boxed()
 }
+
+/// Wide sets of short words: 6..=12 test cases of length 1..=3 (sometimes 4) over a 4..=6 letter
+/// alphabet. Many alternatives meet in the same automaton position, which is what character-class
+/// building and alternation flattening need to go wrong (round-5 seeds needed >= 7 such test cases).
+pub fn wide_short_strategy(fix: fn(Cfg) -> Cfg, default_cfg: bool) -> BoxedStrategy<Case> {
+    use proptest::collection::vec;
+    let word = vec(0u8..6, 1..=3usize);
+    let long = vec(0u8..6, 4..=4usize);
+    (
+        4u8..=6,
+        vec(prop_oneof![9 => word, 1 => long], 6..=12),
+        proptest::sample::select(vec!["abcdef", "bcde x", "a1b2c3", "xyzABC"]),
+        cfg_strategy(),
+    )
+        .prop_map(move |(k, ws, alpha, cfg)| {
+            let letters: Vec<char> = alpha.chars().collect();
+            let tcs: Vec<String> = ws.iter().map(|w| w.iter().map(|&i| letters[(i % k) as usize]).collect()).collect();
+            let mut c = Case::new(tcs, if default_cfg { Cfg::default() } else { fix(cfg) });
+            c.extra = json!({"pool": "wide-short"});
+            c
+        })
+        .boxed()
+}
